@@ -73,8 +73,8 @@ CHECKS.update({
 
 CHECKS.update({
     "C05": ("proof", "A+W+X", "relational abstract interpretation (linear inequalities, Fourier-Motzkin entailment) of the generated iterator's MIR + type-level compile witnesses",
-            "For each witness enum (N = 0..9, with/without disabled variants, type- and const-generic, 4 build configurations) the MIR of nth / next_back / size_hint / len / next / clone is interpreted forward in a relational domain over (idx, back_idx, n). Obligations: O1 every Assert(Overflow) is entailed for all n in usize and all cursor states satisfying the invariant (covers debug panic and release wrap-around alike); O2 the invariant 0 <= idx, back_idx <= N holds at every return; O3 the cursor specifications (item index, cursor updates, None exactly when exhausted, exact size_hint, len = size_hint().0, next = nth(0), clone copies the cursors). Send + Sync for arbitrary type parameters is a compile witness with a failing negative twin; the trait surface is read from the resolved impls and from strum::IntoEnumIterator's bounds.",
-            "per concrete N of the witness enums; refinement from O2+O3 to 'behaves like a double-ended iterator over the list' (O4) is a paper argument; core's default adapters trusted"),
+            "For each witness enum (N = 0..9, with/without disabled variants, type- and const-generic, 4 build configurations) the MIR of nth / next_back / size_hint / len / next / clone is interpreted forward in a relational domain over (idx, back_idx, n). Obligations: O1 every Assert(Overflow) is entailed for all n in usize and all cursor states satisfying the invariant (covers debug panic and release wrap-around alike); O2 the invariant 0 <= idx, back_idx <= N holds at every return; O3 the cursor specifications (item index, cursor updates, None exactly when exhausted, exact size_hint, len = size_hint().0, next = nth(0), clone copies the cursors). The same obligations are then discharged once more with the length read as a symbol N (0 <= N <= rustc's VariantIdx::MAX), i.e. for every number of variants; this step is justified by two checked facts: the MIR of every method is identical across witnesses up to the length constant, and the generator function only interpolates the length into the template and never branches on it. Send + Sync for arbitrary type parameters is a compile witness with a failing negative twin; the trait surface is read from the resolved impls and from strum::IntoEnumIterator's bounds.",
+            "concrete-N verdicts are per witness enum; the all-N verdict assumes the template is the only source of the methods (checked by uniformity); refinement from O2+O3 to 'behaves like a double-ended iterator over the list' (O4) is a paper argument; core's default adapters trusted"),
 })
 
 NOT_YET = {
